@@ -123,14 +123,15 @@ type FA struct {
 	// CallRange, if set, gives an interval for the integer result of a call.
 	CallRange func(call *ssa.Call) (lo, hi int64, ok bool)
 	// CallLen, if set, gives the length (as LF) of the slice result of a call.
-	CallLen  func(f *FA, call *ssa.Call) (LF, bool)
-	intBits  int
-	maxLen   int64
-	Dead     map[*ssa.BasicBlock]bool // blocks unreachable under closed-world assumptions
-	DeadWhy  []string
-	prepared bool
-	EntryWhy []string // caller-derived entry facts (closed world), for the evidence
-	postMemo map[*ssa.Call][]Fact
+	CallLen   func(f *FA, call *ssa.Call) (LF, bool)
+	intBits   int
+	maxLen    int64
+	Dead      map[*ssa.BasicBlock]bool // blocks unreachable under closed-world assumptions
+	DeadWhy   []string
+	prepared  bool
+	EntryWhy  []string // caller-derived entry facts (closed world), for the evidence
+	postMemo  map[*ssa.Call][]Fact
+	narrowDef map[int]narrowDef // atoms that stand for an operation narrowed to its type
 }
 
 // NewFA prepares the analysis of fn.
@@ -532,8 +533,54 @@ func (f *FA) fit(l LF, t types.Type, key, name string) LF {
 	if okLo && okHi {
 		return l
 	}
-	// partially bounded: keep what the type guarantees
-	return f.atomLF(key, name, lo, hi)
+	// partially bounded: keep what the type guarantees; remember what the atom is when nothing wraps, so that a
+	// proof under guards that bound the operands (attr.length == 1 before 4*attr.length in uint8) can use it
+	r := f.atomLF(key, name, lo, hi)
+	if id, ok := singleAtom(r); ok {
+		if f.narrowDef == nil {
+			f.narrowDef = map[int]narrowDef{}
+		}
+		if _, had := f.narrowDef[id]; !had {
+			f.narrowDef[id] = narrowDef{inner: l, lo: lo, hi: hi}
+		}
+	}
+	return r
+}
+
+// narrowDef: atom = inner whenever lo <= inner <= hi (the operation did not wrap in its type).
+type narrowDef struct {
+	inner  LF
+	lo, hi int64
+}
+
+// withNarrowFacts adds, for every narrowed atom whose un-narrowed value provably lies in its type's range under
+// facts, the equality atom = value. Two rounds (a narrowed value may feed another narrowing).
+func (f *FA) withNarrowFacts(facts []Fact) []Fact {
+	if len(f.narrowDef) == 0 {
+		return facts
+	}
+	out := facts
+	added := map[int]bool{}
+	for round := 0; round < 2; round++ {
+		e := f.refine(out)
+		grew := false
+		for id, d := range f.narrowDef {
+			if added[id] {
+				continue
+			}
+			blo, bhi := f.bounds(d.inner, e)
+			if blo >= d.lo && bhi <= d.hi && blo > -INF && bhi < INF {
+				a := LF{T: map[int]int64{id: 1}}
+				out = append(append(out[:len(out):len(out)], Fact{L: a.add(d.inner, -1)}), Fact{L: d.inner.add(a, -1)})
+				added[id] = true
+				grew = true
+			}
+		}
+		if !grew {
+			break
+		}
+	}
+	return out
 }
 
 func (f *FA) lf0(v ssa.Value) LF {
@@ -1317,6 +1364,7 @@ func ceilDiv(a, b int64) int64 { return -floorDiv(-a, b) }
 
 // Prove tries to show g >= 0 from facts. Sound, incomplete. The returned string names the facts used.
 func (f *FA) Prove(g LF, facts []Fact) (bool, string) {
+	facts = f.withNarrowFacts(facts)
 	e := f.refine(facts)
 	if lo, _ := f.bounds(g, e); lo >= 0 {
 		if lo0, _ := f.bounds(g, nil); lo0 >= 0 {
@@ -1367,6 +1415,7 @@ func (f *FA) Prove(g LF, facts []Fact) (bool, string) {
 
 // ProveNE tries to show g != 0.
 func (f *FA) ProveNE(g LF, facts []Fact) bool {
+	facts = f.withNarrowFacts(facts)
 	e := f.refine(facts)
 	lo, hi := f.bounds(g, e)
 	if lo > 0 || hi < 0 {
